@@ -29,7 +29,7 @@ func c06NOpt(ctx core.Ctx) int {
 	return 3*81*2 + 3*2 + 3*2*2 + len(c06OptNames)*4*2 + 3*2 + 4*2 + 3*2 + 8*2 + len(c06OwnAttrForms)*2
 }
 
-var c06OwnAttrForms = []string{"hash-bare", "long-bare", "long-named", "hash-named", "destr", "destr-underscore-hash", "destr-underscore-long", "destr-underscore-default"}
+var c06OwnAttrForms = []string{"hash-bare", "long-bare", "long-named", "hash-named", "destr", "destr-underscore-hash", "destr-underscore-long", "destr-underscore-default", "case-names-hash", "case-names-long"}
 
 func c06BuildOpt(i int) c06Case {
 	o := c06Opt{Entry: []string{"vue", "file"}[i%2]}
@@ -328,8 +328,51 @@ func c06ExecOptDestrNames(c c06Case, o *core.Obs) {
 	}
 }
 
+// slot names are compared as written: <slot name="Title"> and <slot name="title"> are two slots
+func c06ExecOptCaseNames(c c06Case, o *core.Obs) {
+	op := c.Opt
+	sup := `<template #title="p">sub {{ p.k }}</template><template #row="p">[{{ p.k }}]</template>`
+	if op.Form == "case-names-long" {
+		sup = `<template v-slot:title="p">sub {{ p.k }}</template><template v-slot:row="p">[{{ p.k }}]</template>`
+	}
+	page := `<template include="comp.vuego">` + sup + `</template>`
+	comp := `<div data-m="comp"><h1 data-m="s1"><slot name="Title" :k="'K1'">Untitled</slot></h1><h2 data-m="s2"><slot name="title" :k="'K2'">untitled</slot></h2>` +
+		`<ul><li v-for="it in rows" data-m="li"><slot name="Row" :k="it">R-{{ it }}</slot>|<slot name="row" :k="it">r</slot></li></ul></div>`
+	files := map[string]string{"page.vuego": page, "comp.vuego": comp}
+	data := map[string]any{"rows": []any{"a", "b"}}
+	var out string
+	var err error
+	if op.Entry == "vue" {
+		out, err = renderVue(memFS(files), "page.vuego", data)
+	} else {
+		out, err = renderFile(memFS(files), "page.vuego", data)
+	}
+	o.Evals++
+	o.NT("opt-casenames", mustJSON(op))
+	o.Cell("part/opt/casenames/" + op.Form)
+	if err != nil {
+		o.Fail(c, "opt/casenames/render-error", "render failed: %v\npage: %s", err, page)
+		return
+	}
+	doc := oracle.Parse(out, false)
+	var got []string
+	for _, m := range []string{"s1", "s2", "li"} {
+		for _, n := range doc.ByAttr("data-m", m) {
+			got = append(got, strings.Join(strings.Fields(n.InnerText()), ""))
+		}
+	}
+	want := "Untitled ; subK2 ; R-a|[a] ; R-b|[b]"
+	if strings.Join(got, " ; ") != want {
+		o.Fail(c, "opt/casenames/content-for-one-slot-shown-in-a-slot-of-another-name/"+op.Form, "content supplied for `title` and `row`; the slots `Title` and `Row` got nothing and show their fallback: want %q, got %q\npage: %s\ncomponent: %s\noutput: %s", want, strings.Join(got, " ; "), page, comp, out)
+	}
+}
+
 func c06ExecOptOwnAttrs(c c06Case, o *core.Obs) {
 	op := c.Opt
+	if strings.HasPrefix(op.Form, "case-names") {
+		c06ExecOptCaseNames(c, o)
+		return
+	}
 	if strings.HasPrefix(op.Form, "destr-underscore") {
 		c06ExecOptDestrNames(c, o)
 		return
